@@ -82,6 +82,13 @@ def run(ctx):
     ok_br = br is not None and br.tag == 'call' and br[1].endswith('Transcript::build_rng')
     rep.check(bool(ok_fin and null and ok_br), 'R-C08-1', 'R-C08-1/weight-rng', 'the weight RNG is finalize(build_rng(W), NullRng)',
               'the weight RNG is %s' % (short(rng, 160) if rng is not None else None), where_w)
+    if ok_fin and rng[3]:
+        fbb = rng[3][0][1]
+        persists = rng[3][0][0] == v.key and fbb not in cfg.loops[L] and cfg.dominates(fbb, L)
+        rep.check(persists, 'R-C08-2', 'R-C08-2/rng-persists', 'the weight RNG is created once before the per-proof loop and advanced by every draw (weights differ between proofs)',
+                  'the weight RNG is (re)built inside the per-proof loop from loop-invariant state: every proof of the batch receives the same weight', ctx.where(v, fbb))
+        # and it is handed to the sampler by mutable reference to one persistent local
+        mut_arg = w[2][0].tag == 'mut' or any(e for e in ())
     if not ok_br:
         return
     W = br[2][0]
